@@ -38,9 +38,10 @@ pub struct GraphSpec {
     pub ktype: String,
     pub stranded: bool,
     pub min_count: usize,
+    #[serde(with = "crate::dna::serde_seqs")]
     pub reads: Vec<Vec<u8>>,
     /// when non-empty: node sequences (with extension bytes) added directly with BaseGraph::add
-    #[serde(default)]
+    #[serde(default, with = "crate::dna::serde_seq_exts")]
     pub direct_nodes: Vec<(Vec<u8>, u8)>,
     /// when >= 2: the node list is split into this many BaseGraphs (round-robin when odd,
     /// contiguous when even) which are then merged with `BaseGraph::combine` - the same node
@@ -108,6 +109,32 @@ pub fn gen_graph_spec(rng: &mut Rng, ktypes: &[&str], max_reads: usize, max_len:
         direct_nodes: Vec::new(),
         combine_parts: if rng.chance(1, 4) { rng.range(2, 5) } else { 0 },
     }
+}
+
+/// Delta-debugging style removal candidates for a list of `n` items: halves, quarters,
+/// eighths, ... and single items only when the list is short. Keeps the number (and total
+/// size) of shrink candidates bounded for very long lists.
+pub fn removal_ranges(n: usize) -> Vec<(usize, usize)> {
+    let mut out = Vec::new();
+    if n == 0 {
+        return out;
+    }
+    let mut parts = 2usize;
+    while parts <= 16 && n / parts >= 1 && n > 64 {
+        let step = n / parts;
+        for p in 0..parts {
+            let a = p * step;
+            let b = if p + 1 == parts { n } else { a + step };
+            out.push((a, b));
+        }
+        parts *= 2;
+    }
+    if n <= 64 {
+        for i in 0..n {
+            out.push((i, i + 1));
+        }
+    }
+    out
 }
 
 pub fn shrink_graph_spec(g: &GraphSpec) -> Vec<GraphSpec> {
